@@ -48,6 +48,7 @@ type watchRun struct {
 	lists    int
 	alive    bool
 	delivered int
+	resumeBad []string
 }
 
 var labSets = []Map{nil, {{1, 1}}, {{1, 2}}}
@@ -140,6 +141,15 @@ func runWatch(c *Ctx, r *watchRun) {
 		ls, ws := srv.Calls()
 		r.lists = len(ls)
 		r.watches = ws
+		// a reconnect resumes after the last event received: never before an
+		// event a subscriber had already been handed when Watch() was called
+		for _, w := range ws {
+			var rv int
+			fmt.Sscan(w.RV, &rv)
+			if got := m.receivedBefore(w.Seq); got > rv {
+				r.resumeBad = append(r.resumeBad, fmt.Sprintf("Watch call %d resumes at version %d although an event at version %d had already been received and published", w.N, rv, got))
+			}
+		}
 	})
 }
 
@@ -153,7 +163,9 @@ func stepsEnc(ss []wstep) string {
 
 func runC04(c *Ctx) {
 	base := []wstep{{0, 1, 1, 1, 0}, {0, 1, 2, 0, 0}, {0, 1, 1, 2, 0}, {1, 1, 2, 0, 0}, {0, 2, 1, 1, 0}, {0, 1, 2, 1, 0}, {1, 1, 1, 0, 0}, {0, 1, 3, 0, 0}}
-	pre := []wstep{{0, 1, 1, 0, 0}, {0, 1, 3, 1, 0}}
+	// the initial list is at version 7, so that the history crosses the 9 -> 10
+	// digit boundary early
+	pre := []wstep{{0, 1, 1, 0, 0}, {0, 1, 3, 1, 0}, {0, 2, 2, 0, 0}, {1, 2, 2, 0, 0}, {0, 2, 3, 1, 0}, {0, 2, 3, 2, 0}, {0, 1, 3, 2, 0}}
 	faults := [][]wstep{
 		{{Kind: 2}},
 		{{Kind: 3, K: 1}, {Kind: 2}},
@@ -193,6 +205,9 @@ func runC04(c *Ctx) {
 		}
 		if !sameInts(r.mirror, r.final) || len(r.mbad) > 0 {
 			c.Violation("", fmt.Sprintf("a subscriber that replays events diverges from the cache: mirror %v cache %v %v", r.mirror, r.final, r.mbad), replay)
+		}
+		for _, b := range r.resumeBad {
+			c.Violation("", b, replay)
 		}
 		if r.lists != 1 && r.filt == nil {
 			c.Violation("", fmt.Sprintf("%d list calls although the refresh period is 10^6 s", r.lists), replay)
@@ -272,7 +287,7 @@ func runC04(c *Ctx) {
 				steps = append(steps, wstep{Kind: 2})
 			}
 		}
-		r := &watchRun{seed: c.Seed*1000 + int64(i), level: c.Rng.Intn(4), filt: filts[c.Rng.Intn(2)], pre: pre[:c.Rng.Intn(3)], steps: steps}
+		r := &watchRun{seed: c.Seed*1000 + int64(i), level: c.Rng.Intn(4), filt: filts[c.Rng.Intn(2)], pre: pre[:c.Rng.Intn(len(pre)+1)], steps: steps}
 		runWatch(c, r)
 		eval(r, fmt.Sprintf("random %d", i))
 	}
